@@ -202,6 +202,8 @@ pub fn main() {
     let mut out = BufWriter::with_capacity(1 << 16, stdout.lock());
     let mut input = stdin.lock();
     let mut buf: Vec<u8> = Vec::with_capacity(1 << 12);
+    // JPSERVE_FLUSH=1: answer line by line (used by the check to isolate a line on which the crate hangs)
+    let flush_each = std::env::var_os("JPSERVE_FLUSH").is_some();
     loop {
         buf.clear();
         match input.read_until(b'\n', &mut buf) {
@@ -217,6 +219,9 @@ pub fn main() {
             Err(_) => "bad_op=1".to_string(),
         };
         if out.write_all(res.as_bytes()).is_err() || out.write_all(b"\n").is_err() {
+            break;
+        }
+        if flush_each && out.flush().is_err() {
             break;
         }
     }
